@@ -1006,6 +1006,11 @@ func (st *e2State) classifyLoop(fn *Func, rs *ast.RangeStmt, why string, addSrc 
 					// same value whichever iteration executes it (e.g. found = true, ctx = WithX(ctx))
 					continue
 				}
+				if be, ok := ast.Unparen(rhs).(*ast.BinaryExpr); ok && rhs != nil && (be.Op == token.LOR || be.Op == token.LAND) &&
+					pathOf(info, l) != "" && (pathOf(info, be.X) == pathOf(info, l) || pathOf(info, be.Y) == pathOf(info, l)) {
+					// found = found || p(item): a boolean fold, the same whichever order the items come in
+					continue
+				}
 				report(x, "assignment to "+exprStr(l), "assignment of an iteration-dependent value to "+exprStr(l)+", declared outside the loop: the surviving value depends on iteration order")
 			}
 		case *ast.IncDecStmt:
@@ -1341,6 +1346,7 @@ func sliceOfMapKeysOrderedByElement(fn *Func, call *ast.CallExpr, path string) b
 		}
 	}
 	elemOrdered := false
+	keyField := "" // "" : the elements themselves are the keys
 	ast.Inspect(lit.Body, func(k ast.Node) bool {
 		be, ok := k.(*ast.BinaryExpr)
 		if !ok || (be.Op != token.LSS && be.Op != token.GTR) {
@@ -1351,6 +1357,15 @@ func sliceOfMapKeysOrderedByElement(fn *Func, call *ast.CallExpr, path string) b
 			if c, ok := e.(*ast.CallExpr); ok && len(c.Args) == 1 {
 				if tv, ok := info.Types[c.Fun]; ok && tv.IsType() {
 					e = ast.Unparen(c.Args[0])
+				}
+			}
+			// xs[i].F: the element's field F (which must be the one carrying the map key)
+			if sel, ok := e.(*ast.SelectorExpr); ok {
+				if _, isIx := ast.Unparen(sel.X).(*ast.IndexExpr); isIx {
+					if keyField == "" || keyField == sel.Sel.Name {
+						keyField = sel.Sel.Name
+						e = ast.Unparen(sel.X)
+					}
 				}
 			}
 			ix, ok := e.(*ast.IndexExpr)
@@ -1388,7 +1403,20 @@ func sliceOfMapKeysOrderedByElement(fn *Func, call *ast.CallExpr, path string) b
 			return true
 		}
 		nAppends++
-		kid, ok := ast.Unparen(c.Args[1]).(*ast.Ident)
+		appended := ast.Unparen(c.Args[1])
+		if keyField != "" {
+			// T{…, F: key, …}
+			cl, ok := appended.(*ast.CompositeLit)
+			if !ok {
+				good = false
+				return true
+			}
+			appended = nil
+			if fv := litField(cl, keyField); fv != nil {
+				appended = ast.Unparen(fv)
+			}
+		}
+		kid, ok := appended.(*ast.Ident)
 		if !ok {
 			good = false
 			return true
